@@ -27,9 +27,12 @@ const NULL: u16 = 1 << 9;
 
 /// Functions whose results depend on the environment / wall clock / network, or that write to
 /// the process's stdout (exempt by C14's own list; they are not swept).
-const EXCLUDED: [&str; 17] = [
-    "dns_lookup", "reverse_dns", "http_request", "get_hostname", "get_env_var", "now", "random_bool", "random_bytes", "random_float",
-    "random_int", "uuid_v4", "uuid_v7", "uuid_from_friendly_id", "log", "get_timezone_name", "haversine_unused_placeholder", "assert_unused_placeholder",
+const EXCLUDED: [&str; 4] = ["dns_lookup", "reverse_dns", "http_request", "log"];
+
+/// Functions whose VALUE is random / environment dependent: their result is still checked against the
+/// declared type, for panics and for termination, but never compared between runs.
+pub const NONDETERMINISTIC: [&str; 12] = [
+    "get_hostname", "get_env_var", "now", "random_bool", "random_bytes", "random_float", "random_int", "uuid_v4", "uuid_v7", "uuid_from_friendly_id", "get_timezone_name", "get_secret",
 ];
 
 fn kind_bit(v: &Value) -> u16 {
@@ -56,7 +59,7 @@ fn alphabet(kind: u16, thorough: bool) -> Vec<String> {
         }
     }
     if kind & INTEGER != 0 {
-        v.extend(["0", "1", "-1", "2", "64", "10000", "9223372036854775807", "(-9223372036854775807 - 1)"]);
+        v.extend(["0", "1", "-1", "2", "64", "10000", "9223372036854775807", "(-9223372036854775807 - 1)", "16777216"]);
         if thorough {
             v.extend(["3", "16", "36", "255", "-64", "4294967296"]);
         }
@@ -71,7 +74,7 @@ fn alphabet(kind: u16, thorough: bool) -> Vec<String> {
         v.extend(["true", "false"]);
     }
     if kind & ARRAY != 0 {
-        v.extend(["[1, \"a\"]", "[]", "[1]", "[\"a\"]", "[null]", "[[1], {\"k\": null}]", "[\"a\", \"b\", \"a\"]"]);
+        v.extend(["[1, \"a\"]", "[\"a\", 1]", "[]", "[1]", "[\"a\"]", "[null]", "[[1], {\"k\": null}]", "[\"a\", \"b\", \"a\"]"]);
         if thorough {
             v.extend(["[1, 2, 3]", "[1.5, null, true]"]);
         }
@@ -396,7 +399,7 @@ thread_local! {
     static FNS: Vec<Box<dyn Function>> = vrlx::fns();
 }
 
-fn eval_literal(text: &str) -> Option<Value> {
+pub fn eval_literal(text: &str) -> Option<Value> {
     let p = crate::law::prog(text)?;
     let mut t = vrlx::target(vrlx::empty_object(), vrlx::empty_object());
     match vrlx::run_runtime(&p, &mut t, &vrlx::utc()) {
@@ -407,6 +410,9 @@ fn eval_literal(text: &str) -> Option<Value> {
 
 /// Result of one case: {status, class, ms, viol: [{tag, clause, expected, observed}]}.
 pub fn run_case(w: &J) -> J {
+    if w["mode"] == "program" {
+        return run_program_case(w["src"].as_str().unwrap_or(""));
+    }
     let name = w["fn"].as_str().unwrap_or("");
     let args = w["args"].as_str().unwrap_or("");
     let cl = w["closure"].as_str().unwrap_or("");
@@ -460,13 +466,21 @@ pub fn run_case(w: &J) -> J {
             // `capacity overflow` is the allocator refusing an absurd size derived from an extreme count:
             // memory exhaustion is out of scope for C04 (its statement says so); counted, not judged.
             if p.starts_with("capacity overflow") {
-                return json!({"status": "run-panic-capacity-overflow(out of scope)", "viol": viol, "bang": used_bang});
+                // … but it is exactly what C05 forbids: an allocation request that grows with an extreme count
+                push("C05", "C05.unbounded-allocation-request", "no argument value makes a call grow its output without bound".into(), p);
+                return json!({"status": "run-panic-capacity-overflow(out of scope for C04)", "viol": viol, "bang": used_bang});
             }
             push("C04", "C04.run-panic", "running a stdlib call does not panic".into(), p);
             return json!({"status": "run-panic", "viol": viol, "bang": used_bang});
         }
     };
     let ms = t0.elapsed().as_secs_f64() * 1000.0;
+    if let Outcome::Ok(v) = &outcome {
+        let size = approx_size(v);
+        if size > (4 << 20) {
+            push("C05", "C05.output-out-of-proportion", "a few bytes of input give at most 4 MiB of output".into(), format!("result of about {size} bytes"));
+        }
+    }
     match &outcome {
         Outcome::Ok(v) => {
             let k = ti.result.kind();
@@ -496,6 +510,50 @@ pub fn run_case(w: &J) -> J {
         Outcome::Abort(_) | Outcome::Other(_) | Outcome::Return(_) => {}
     }
     json!({"status": "ran", "class": outcome.class(), "ms": ms, "viol": viol, "bang": used_bang})
+}
+
+/// A whole program text (C04's extreme-literal programs): compile, render diagnostics, run on {} — panics only.
+fn run_program_case(src: &str) -> J {
+    let mut viol: Vec<J> = Vec::new();
+    let t0 = Instant::now();
+    let compiled = FNS.with(|fns| guarded(|| vrlx::compile_ext(src, fns, &ExternalEnv::default(), CompileConfig::default())));
+    let program = match compiled {
+        Err(p) => {
+            if !p.starts_with("capacity overflow") {
+                viol.push(json!({"tag": "C04", "clause": "C04.compile-panic", "expected": "compiling any source text does not panic", "observed": p}));
+            }
+            return json!({"status": "compile-panic", "viol": viol});
+        }
+        Ok(Err(d)) => {
+            let r = guarded(|| vrl::diagnostic::Formatter::new(src, d).to_string());
+            if let Err(p) = r {
+                viol.push(json!({"tag": "C04", "clause": "C04.render-panic", "expected": "rendering the diagnostics does not panic", "observed": p}));
+            }
+            return json!({"status": "rejected", "viol": viol});
+        }
+        Ok(Ok(r)) => r.program,
+    };
+    let mut tgt = vrlx::target(vrlx::empty_object(), vrlx::empty_object());
+    let tz = vrlx::utc();
+    match guarded(|| vrlx::run_runtime(&program, &mut tgt, &tz)) {
+        Ok(o) => json!({"status": "ran", "class": o.class(), "ms": t0.elapsed().as_secs_f64() * 1000.0, "viol": viol}),
+        Err(p) => {
+            if p.starts_with("capacity overflow") {
+                return json!({"status": "run-panic-capacity-overflow(out of scope)", "viol": viol});
+            }
+            viol.push(json!({"tag": "C04", "clause": "C04.run-panic", "expected": "running an accepted program does not panic", "observed": p}));
+            json!({"status": "run-panic", "viol": viol})
+        }
+    }
+}
+
+fn approx_size(v: &Value) -> usize {
+    match v {
+        Value::Bytes(b) => b.len(),
+        Value::Array(a) => 8 + a.iter().map(approx_size).sum::<usize>(),
+        Value::Object(o) => 8 + o.iter().map(|(k, v)| k.len() + approx_size(v)).sum::<usize>(),
+        _ => 8,
+    }
 }
 
 fn tgt_value(o: &Outcome) -> &Value {
@@ -692,6 +750,7 @@ pub struct Sweep {
     pub confirmed_hangs: Vec<usize>,
     pub functions: usize,
     pub per_function: BTreeMap<String, (u64, u64, u64)>, // cases, ran, ok
+    pub program_timeouts: usize,
 }
 
 pub fn sweep(tier: Tier, tag: &str) -> Sweep {
@@ -703,6 +762,10 @@ pub fn sweep(tier: Tier, tag: &str) -> Sweep {
             c["return_kind"] = json!(s.return_kind);
             cases.push(c);
         }
+    }
+    // whole programs with extreme integer / index / float literals (run here because they may hang or exhaust memory)
+    for src in crate::props::c33::c04_extreme_texts() {
+        cases.push(json!({"fn": "<program>", "mode": "program", "src": src}));
     }
     let dir = verif_root().join("work");
     std::fs::create_dir_all(&dir).ok();
@@ -721,8 +784,12 @@ pub fn sweep(tier: Tier, tag: &str) -> Sweep {
     // (it is reported through the known-findings file either way); every other suspect is.
     let known = crate::report::known_hashes("C05");
     let is_known = |i: usize| known.contains(&Violation::new("C05.call-does-not-return", witness(&cases[i]), "", "").hash("C05"));
-    let suspects: Vec<usize> = result.hangs.iter().copied().filter(|i| !is_known(*i)).collect();
-    let mut confirmed: Vec<usize> = result.hangs.iter().copied().filter(|i| is_known(*i)).collect();
+    // whole-program cases (C04's extreme literals) are not stdlib calls: C05 does not judge them, so a
+    // timeout there (e.g. `.a[4294967296] = 1` padding four billion nulls) is only counted
+    let is_program = |i: usize| cases[i]["mode"] == "program";
+    let suspects: Vec<usize> = result.hangs.iter().copied().filter(|i| !is_known(*i) && !is_program(*i)).collect();
+    let mut confirmed: Vec<usize> = result.hangs.iter().copied().filter(|i| is_known(*i) && !is_program(*i)).collect();
+    let program_timeouts = result.hangs.iter().filter(|i| is_program(**i)).count();
     if !suspects.is_empty() {
         let p1 = dir.join(format!("sweep.{tag}.confirm.cases"));
         {
@@ -758,7 +825,7 @@ pub fn sweep(tier: Tier, tag: &str) -> Sweep {
             }
         }
     }
-    Sweep { functions: sp.len(), cases, result, confirmed_hangs: confirmed, per_function }
+    Sweep { functions: sp.len(), cases, result, confirmed_hangs: confirmed, per_function, program_timeouts }
 }
 
 fn witness(c: &J) -> J {
@@ -769,7 +836,7 @@ fn witness(c: &J) -> J {
     w
 }
 
-fn run_for(property: &'static str, tier: Tier) -> Report {
+pub fn run_for(property: &'static str, tier: Tier) -> Report {
     let mut rep = Report::new(property, tier, "exploration");
     let sw = sweep(tier, property);
     let mut ran = 0u64;
@@ -805,7 +872,7 @@ fn run_for(property: &'static str, tier: Tier) -> Report {
             rep.violation(Violation::new("C05.call-does-not-return", witness(&sw.cases[h]), "the call returns within 4 s of CPU time (confirmed with a 60 s CPU budget in a fresh worker); inputs are a few bytes", "no result: worker killed by the watchdog"));
         }
         for (i, why) in &sw.result.crashes {
-            if *i != usize::MAX {
+            if *i != usize::MAX && sw.cases[*i]["mode"] != "program" {
                 rep.violation(Violation::new("C05.worker-died-resource-exhaustion", witness(&sw.cases[*i]), "bounded memory / orderly return for a few bytes of input", format!("worker process died: {why} (address space capped at 6 GiB)")));
             }
         }
@@ -823,6 +890,7 @@ fn run_for(property: &'static str, tier: Tier) -> Report {
     rep.set("violations_of_other_properties_seen", other_tags);
     rep.set("hangs_first_pass", sw.result.hangs.len() as u64);
     rep.set("hangs_confirmed", sw.confirmed_hangs.len() as u64);
+    rep.set("whole_program_cases_timed_out(resource exhaustion; not stdlib calls; not judged)", sw.program_timeouts as u64);
     rep.set("slow_but_finished", json!(sw.result.slow_but_finished.iter().map(|(i, ms)| json!({"case": sw.cases[*i]["fn"], "ms": ms})).collect::<Vec<_>>()));
     rep.set("max_call_ms", max_ms);
     let zero_ran: Vec<&String> = sw.per_function.iter().filter(|(_, v)| v.1 == 0).map(|(k, _)| k).collect();
@@ -834,7 +902,7 @@ fn run_for(property: &'static str, tier: Tier) -> Report {
         "for every stdlib function (nondeterministic/IO ones excluded): full cross product of the required parameters' alphabets (declared enum variants + literals harvested from the function's own examples + per-kind edge values; shrunk longest-first to the per-function cap), each optional parameter added one value at a time (thorough: also pairs), every closure body of the alphabet; each tuple as all-literal arguments and as runtime-typed arguments (`.a0`, … read from the event) plus non-UTF-8 bytes / ±inf in every required position; a case is non-trivial when the compiler accepted the call (plain or with `!`) and it was executed; distinct by construction (the cross product has no repeats)",
     );
     rep.assume("every call runs in a sacrificial worker process (RLIMIT_AS 6 GiB; watchdog: 4 s of CPU time per call, re-confirmed with 60 s of CPU time in a fresh worker unless the exact witness is a listed known finding; wall-clock only as a 15x backstop)");
-    rep.assume("excluded as nondeterministic / environment-dependent: dns_lookup, reverse_dns, http_request, get_hostname, get_env_var, now, random_*, uuid_*, log, get_timezone_name");
+    rep.assume("excluded: dns_lookup, reverse_dns, http_request (network) and log (writes to the process output); random/environment functions are swept (type, panics, termination) but their values are never compared");
     for c in sw.cases.iter().step_by((sw.cases.len() / 6).max(1)).take(6) {
         rep.sample(witness(c));
     }
@@ -844,8 +912,18 @@ fn run_for(property: &'static str, tier: Tier) -> Report {
 pub fn run_c03(tier: Tier) -> Report {
     run_for("C03", tier)
 }
+/// C04 = runtime half (this sweep) + compile half (the token-sequence / edit enumeration of c33.rs in
+/// C04 mode: compile, render and run under catch_unwind, label positions not judged).
 pub fn run_c04_sweep(tier: Tier) -> Report {
-    run_for("C04", tier)
+    let rep = run_for("C04", tier);
+    let sweep_rule = rep.coverage.get("rule").and_then(J::as_str).unwrap_or("").to_string();
+    crate::props::c33::C04_MODE.store(true, std::sync::atomic::Ordering::Relaxed);
+    let mut rep = crate::props::c33::run_with(rep, tier);
+    crate::props::c33::C04_MODE.store(false, std::sync::atomic::Ordering::Relaxed);
+    let text_rule = rep.coverage.get("rule").and_then(J::as_str).unwrap_or("").to_string();
+    rep.set("rule", format!("RUNTIME HALF: {sweep_rule} || COMPILE HALF (every text is parsed, compiled under two environments, its diagnostics rendered, and the accepted program run on an empty event, all under catch_unwind): {text_rule}"));
+    rep.assumptions.retain(|a| !a.contains("label") && !a.contains("reduced"));
+    rep
 }
 pub fn run_c05(tier: Tier) -> Report {
     run_for("C05", tier)
